@@ -12,16 +12,16 @@ ENV = None
 PROPS = {
     "C01": dict(families=["conc", "order", "acq", "hist"], pred="C01"),
     "C02": dict(families=["conc", "route", "acq", "panic"], pred="C02"),
-    "C03": dict(families=["acq", "panic", "fault", "hist", "poison"], pred="C03"),
+    "C03": dict(families=["acq", "panic", "fault", "hist", "poison", "unwind"], pred="C03"),
     "C04": dict(families=["acq"], pred="C04"),
-    "C05": dict(families=["acq", "panic", "fault", "conc", "nonacq", "poison"], pred="C05"),
-    "C06": dict(families=["hist", "panic", "acq"], pred="C06"),
+    "C05": dict(families=["acq", "panic", "fault", "conc", "nonacq", "poison", "unwind"], pred="C05"),
+    "C06": dict(families=["hist", "panic", "acq", "unwind"], pred="C06"),
     "C07": dict(families=["trynew"], pred="C07"),
     "C08": dict(families=["order", "acq"], pred="C08"),
     "C09": dict(families=["acq", "fault", "conc"], pred="C09"),
-    "C10": dict(families=["poison", "panic", "conc"], pred="C10"),
-    "C11": dict(families=["panic", "poison"], pred="C11"),
-    "C12": dict(families=["fault"], pred="C12"),
+    "C10": dict(families=["poison", "panic", "conc", "unwind"], pred="C10"),
+    "C11": dict(families=["panic", "poison", "unwind"], pred="C11"),
+    "C12": dict(families=["fault", "unwind"], pred="C12"),
     "C13": dict(families=["quiet", "acq"], pred="C13"),
     "C17": dict(families=["nonacq"], pred="C17"),
 }
